@@ -10,6 +10,9 @@ package main
 //   ksDecodeBigEndian            every binary.Read in decodeKey names binary.BigEndian
 //
 // The model (Model/KeyedState.lean decodeKey) and the layout theorem (Props/C03.lean) are re-checked against them.
+// A shape this reader does not recognise is reported as a problem attributed to the facts concerned (the last good
+// value is kept, never a guessed 0); tools/gofacts/fallbacks.json names the correspondences that observe each fact
+// completely (C05 `dbkey`/`subjkey` compare the encoded bytes, C03 `decode`/`get` go through the real decodeKey).
 
 import (
 	"go/ast"
@@ -65,7 +68,7 @@ func c03Facts(fc *facts) {
 		fc.set("ksLenBits", a[0][0], true, "")
 		fc.set("ksLenBigEndian", a[0][1], true, "")
 	} else {
-		problem("subject-key length field: encodeSubjectKey writes %v, encodeDBKey writes %v (expected one equal PutUint call each)", a, b)
+		problemFor([]string{"ksLenBits", "ksLenBigEndian"}, "subject-key length field: encodeSubjectKey writes %v, encodeDBKey writes %v (expected one equal binary.<Order>.PutUint<N> call each, or encodeDBKey building on encodeSubjectKey)", a, b)
 	}
 
 	// uintN(len(namespace))
@@ -91,13 +94,12 @@ func c03Facts(fc *facts) {
 	if len(nsBits) == 1 {
 		fc.set("ksNsLenBits", nsBits[0], true, "")
 	} else {
-		problem("namespace length field: expected one uintN(len(namespace)) in encodeDBKey, found %v", nsBits)
+		problemFor([]string{"ksNsLenBits"}, "namespace length field: expected one uintN(len(namespace)) in encodeDBKey, found %v", nsBits)
 	}
 
 	// decodeKey
 	var skips, varBits []uint64
-	allBE := true
-	reads := 0
+	be, le, otherOrder := 0, 0, 0
 	ast.Inspect(dec, func(n ast.Node) bool {
 		switch x := n.(type) {
 		case *ast.SliceExpr:
@@ -116,9 +118,13 @@ func c03Facts(fc *facts) {
 			}
 		case *ast.CallExpr:
 			if selName(x.Fun) == "binary.Read" && len(x.Args) == 3 {
-				reads++
-				if selName(x.Args[1]) != "binary.BigEndian" {
-					allBE = false
+				switch selName(x.Args[1]) {
+				case "binary.BigEndian":
+					be++
+				case "binary.LittleEndian":
+					le++
+				default:
+					otherOrder++ // a byte order this reader cannot name: not guessed
 				}
 			}
 		}
@@ -127,21 +133,20 @@ func c03Facts(fc *facts) {
 	if len(skips) == 1 {
 		fc.set("ksDecodeSkip", skips[0], true, "")
 	} else {
-		problem("decodeKey: expected one x[<literal>:] slice expression, found %v", skips)
+		problemFor([]string{"ksDecodeSkip"}, "decodeKey: expected one x[<constant>:] slice expression, found %v", skips)
 	}
 	if len(varBits) == 2 {
 		fc.set("ksDecodeLenBits", varBits[0], true, "")
 		fc.set("ksDecodeNsBits", varBits[1], true, "")
 	} else {
-		problem("decodeKey: expected two unsigned length variables, found %v", varBits)
+		problemFor([]string{"ksDecodeLenBits", "ksDecodeNsBits"}, "decodeKey: expected two unsigned length variables, found %v", varBits)
 	}
-	if reads >= 2 {
-		be := uint64(0)
-		if allBE {
-			be = 1
-		}
-		fc.set("ksDecodeBigEndian", be, true, "")
-	} else {
-		problem("decodeKey: expected binary.Read calls, found %d", reads)
+	switch {
+	case be >= 2 && le == 0 && otherOrder == 0:
+		fc.set("ksDecodeBigEndian", 1, true, "")
+	case le >= 2 && be == 0 && otherOrder == 0:
+		fc.set("ksDecodeBigEndian", 0, true, "")
+	default:
+		problemFor([]string{"ksDecodeBigEndian"}, "decodeKey: expected binary.Read calls naming one byte order, found %d big-endian, %d little-endian, %d other", be, le, otherOrder)
 	}
 }
